@@ -474,7 +474,7 @@ def sequences(chk, tier, crate, g, iD):
     kcl = crate.method(g.path, "core::clone::Clone", "clone")
     lens = [1, 4, 5, 8, 12] if tier == "quick" else [1, 2, 3, 4, 5, 7, 8, 9, 12, 16, 20]
     ops = [("next_u32", None), ("next_u64", None)] + [("fill_bytes", n) for n in lens]
-    depth = 3 if tier == "quick" else 3
+    depth = 3 if tier == "quick" else 4
     seqs = [()]
     frontier = [()]
     for _ in range(depth):
@@ -635,4 +635,4 @@ def sequences(chk, tier, crate, g, iD):
     chk.ob("R9", "all %d call sequences (length <= %d after a normalising next_u64, plus clone sequences)|outputs and collections follow the model" % (
         nseq, depth), not bad, "%d sequence(s) deviate" % len(bad), where=where,
         sample={"sequences": nseq, "operations": [o[0] if o[1] is None else "%s(%d)" % o for o in ops], "fields_untouched_by_gen_entropy": len(keep)})
-    chk.floor("R9", "call sequences", nseq, 399 + len(clone_seqs))
+    chk.floor("R9", "call sequences", nseq, sum(len(ops) ** k_ for k_ in range(1, depth + 1)) + len(clone_seqs))
